@@ -83,6 +83,9 @@ func scenariosFor(prop string) []scn {
 		// a store that is slow for one commit (7s) while later acks arrive: no later flush may overtake it
 		both(flowParams{Sources: 1, Records: 3, Batch: 1, Dests: 1, AckMenu: onlyOK, Bundle: 2, CommitDelaysMs: []int{0, 7000}}, 1, 2)
 		both(flowParams{Sources: 1, Records: 3, Batch: 1, Dests: 1, AckMenu: onlyOK, CommitDelaysMs: []int{7000, 0, 7000}}, 1, 2)
+		// nack window bound to pipeline behaviour: which rejections are dead-lettered and which stop the pipeline
+		both(flowParams{Sources: 1, Records: 4, Batch: 1, Dests: 1, AckMenu: []string{"nack", "ok"}, Window: 3, Thresh: 1, Retries: -1}, 2, 3)
+		both(flowParams{Sources: 1, Records: 4, Batch: 1, Dests: 1, AckMenu: []string{"nack", "ok"}, Window: 2, Thresh: 1, Retries: -1}, 2, 3)
 		// a source plugin that is slow to take acks off its stream while later flushes release more acks
 		both(flowParams{Sources: 1, Records: 4, Batch: 1, Dests: 1, AckMenu: onlyOK, Bundle: 2, LateAckRecv: true}, 1, 2)
 		both(flowParams{Sources: 1, Records: 4, Batch: 2, Dests: 1, AckMenu: onlyOK, LateCommit: true, LateAckRecv: true}, 1, 2)
